@@ -1,5 +1,6 @@
 //! Engine: choice streams, case context, known findings, worker / supervisor driver, evidence.
 
+pub mod fuzz;
 pub mod meter;
 pub mod run;
 pub mod src;
@@ -201,6 +202,21 @@ pub struct Spec {
     /// Whether `fixed` enumerates the property's whole (finite) domain.
     pub exhaustive: bool,
     pub assumptions: &'static [&'static str],
+    /// Coverage-guided campaign run in addition (thorough tier; `VCHECK_FUZZ=1` forces it in quick).
+    pub fuzz: Option<FuzzSpec>,
+}
+
+/// A fixed-work libFuzzer campaign over the same case function.
+pub struct FuzzSpec {
+    /// cargo-fuzz target name in /verif/fuzz
+    pub target: &'static str,
+    /// stream prefix the target prepends (to turn an artifact into a replay file)
+    pub prefix: &'static [u8],
+    pub max_len: usize,
+    /// runs per job in the quick (when forced) and thorough tier
+    pub quick_runs: u64,
+    pub thorough_runs: u64,
+    pub jobs: usize,
 }
 
 impl Spec {
@@ -223,6 +239,7 @@ impl Spec {
             fixed: None,
             exhaustive: false,
             assumptions: &[],
+            fuzz: None,
         }
     }
 }
